@@ -8,6 +8,7 @@ package imports
 
 import (
 	"bufio"
+	"bytes"
 	"errors"
 	"io"
 	"unicode/utf8"
@@ -25,6 +26,8 @@ type importReader struct {
 func isIdent(c byte) bool {
 	return 'A' <= c && c <= 'Z' || 'a' <= c && c <= 'z' || '0' <= c && c <= '9' || c == '_' || c >= utf8.RuneSelf
 }
+
+var bom = []byte{0xef, 0xbb, 0xbf}
 
 var (
 	errSyntax = errors.New("syntax error")
@@ -214,6 +217,12 @@ func ReadComments(f io.Reader) ([]byte, error) {
 // and stops reading the input once the imports have completed.
 func ReadImports(f io.Reader, reportSyntaxError bool, imports *[]string) ([]byte, error) {
 	r := &importReader{b: bufio.NewReader(f)}
+
+	// Remove a leading UTF-8 byte-order mark, which the Go spec allows a
+	// compiler to ignore at the start of the source text (as go/build does).
+	if leading, err := r.b.Peek(3); err == nil && bytes.Equal(leading, bom) {
+		r.b.Discard(3)
+	}
 
 	r.readKeyword("package")
 	r.readIdent()
